@@ -3,6 +3,9 @@ import VivModel.Model.RandomBlock
 import VivModel.Model.IndexMap
 import VivModel.Model.Machine
 import VivModel.Model.Events
+import VivModel.Model.Pipeline
+import VivModel.Model.Lookup
+import VivModel.Model.Results
 /-! WHOLE — an end-to-end executable model of a whole (small) vivarium simulation, composed from the
 sub-models of the framework: `Sha1` + `MT19937` + `RandomBlock` (the random block numpy computes from
 the seed string), `Stream` (seed string, `get_draw`, `filter_for_probability`, `choice`), `IndexMap`
@@ -38,16 +41,75 @@ Details of the real code the model reproduces (each one was needed for the table
 * listeners are called by priority bucket (0 … 9), inside a bucket in registration order (= component setup order);
 * the machine and the mortality component see TRACKED simulants only; nothing ever tracks a simulant again;
 * `_convert_to_ten_digit_int`: int columns and the int salt go through `_spread` (with int64 wrap-around for 50+ bit
-  keys), a float key `k / 2^bits` through `_shift` = `floor(k * 10^10 / 2^bits)`. -/
+  keys), a float key `k / 2^bits` through `_shift` = `floor(k * 10^10 / 2^bits)`.
+
+OPT-IN extensions (every default reproduces the behaviour described above exactly):
+* `Config.age`: an int column `age = floor(d * 2^bits)` of the same positional CRN draw as `key`;
+* `Config.pipe`: the mortality probability is the value of the pipeline `wmort.p` (`Model/Pipeline.lean`, C14): source =
+  a lookup table (`Model/Lookup.lean`, C15: `build` at setup, `Table.call` per request: categorical keys sex / state,
+  optionally the binned parameter `age`), modifiers registered by the components `WMod k` (ids 4, 5, 6) in SETUP order
+  (`Manager.run` over the registration calls), `replace_combiner` without post-processor or `list_combiner` +
+  `union_post_processor`; values are exact rationals (`Rat`), the filter compares `draw / 2^53 < value`;
+* `Config.strats` / `Config.obs`: the results system (`Model/Results.lean`, C16): the `ResultsManager` registers one
+  listener per time-step channel at the DEFAULT priority during ITS setup, i.e. BEFORE every component (`regs`); the
+  listener (`observe`) hands `gatherEvent` the population of `event.index` as it is at that moment – untracked
+  simulants included (the manager's view requires `tracked`, so nothing is filtered) – with the mappers', filters' and
+  aggregators' outputs computed from the table. The running results are part of the state (`State.res`). -/
 namespace Viv.Whole
 open Viv
+
+deriving instance DecidableEq for Viv.Results.Ctx
 
 inductive Err
   | randomness   -- RandomnessError: duplicate keys at `register_simulants`
   | lookup       -- IndexError: a label outside the block (no CRN), an option index outside the choices
-  | value        -- ValueError: positional draws longer than the block; `_normalize_probabilities` rejections
+  | value        -- ValueError: positional draws longer than the block; `_normalize_probabilities` rejections;
+                 --   a mapper output outside the categories; a categorical lookup without exactly one data row
   | fuel         -- the collision loop of the index map did not finish within the fuel (the real loop keeps running)
   | internal     -- unreachable (`IndexMap.update_never_internal`)
+  | key          -- KeyError: no interpolation for the key combination of a requested simulant
+  deriving DecidableEq, Repr
+
+/-- one value modifier of the pipeline `wmort.p` (`WMod k`): `kind` 0 `value * w[sex]/den`, 1 `value + w[sex]/den`,
+2 `w[sex]/den` (replace-style); under the list combiner the contribution is `w[sex]/den` whatever the kind -/
+structure ModSpec where
+  kind : Nat
+  den : Nat
+  w : List Int
+  deriving DecidableEq, Repr
+
+/-- the lookup table and the pipeline of the mortality probability -/
+structure PipeSpec where
+  union : Bool             -- `list_combiner` + `union_post_processor` instead of `replace_combiner` + no post-processor
+  den : Nat                -- value cells are `n / den`
+  keys : List Nat          -- key columns of the table, in order: 0 = "sex", 1 = "wstate"
+  edges : List Int         -- bin edges of the parameter column `age` (`[]`: no parameter column)
+  rows : List (List Int)   -- data rows: one cell per key column (index of the sex / state), the bin index when there
+                           --   is a parameter column, the value numerator
+  mods : List ModSpec      -- the modifier of `WMod k` at position `k`
+  deriving DecidableEq, Repr
+
+/-- a stratification `WObserver` registers: `kind` 0 the `sex` column, 1 the `wstate` column, 2 the mapper
+`sex + "_" + wstate`, 3 the mapper `tracked ↦ yes / no`, 4 `register_binned_stratification("age", …, edges, cats)` -/
+structure StratSpec where
+  name : String
+  kind : Nat
+  cats : List String
+  excl : List String
+  edges : List Int
+  deriving DecidableEq, Repr
+
+/-- an adding observation `WObserver` registers: `filter` 0 `""`, 1 `tracked == True`, 2 `wstate == "s1"`,
+3 `sex == "f" and tracked == True`, 4 `tracked == False`; `agg` 0 `len`, 1 sum of `entrance`, 2 sum of `age`;
+observed when `((event.time - start) // step) % every == 0` -/
+structure ObsSpec where
+  name : String
+  phase : Nat
+  filter : Nat
+  agg : Nat
+  every : Nat
+  add : List String
+  exc : List String
   deriving DecidableEq, Repr
 
 /-- one state of the machine: `State(allow_self_transition)`, its transitions in declaration order as
@@ -71,7 +133,8 @@ structure Config where
   sexW : Nat               -- weight of "m" in sixteenths (≤ 16)
   births : List (List Nat) -- per step number, per channel: simulants created by WPop's listener
   akPerPhase : Bool        -- the CRN-initialising draw uses `key<site>` instead of `key` as additional key
-  order : List Nat         -- component order (= setup order = registration order): 0 WPop, 1 WMort, 2 WDisease
+  order : List Nat         -- component order (= setup order = registration order): 0 WPop, 1 WMort, 2 WDisease,
+                           --   3 WObserver, 4 / 5 / 6 WMod 0 / 1 / 2
   birthPrio : List Nat     -- priority of WPop's listener on each of the four channels
   mortPhase : Nat
   mortPrio : Nat
@@ -81,6 +144,11 @@ structure Config where
   initW : List (List Nat)  -- [sex][state] sixteenths: weights of the initial state
   states : List StSpec
   fuel : Nat := 4096       -- bound on the collision-loop iterations explored by the model
+  age : Option Nat := none           -- opt-in: WPop creates `age = floor(draw * 2^bits)`
+  pipe : Option PipeSpec := none     -- opt-in: the mortality probability is the value of the pipeline `wmort.p`
+  strats : List StratSpec := []      -- opt-in: what WObserver registers
+  obsDefaults : List String := []    --   `stratification.default` of the configuration
+  obs : List ObsSpec := []
   deriving Repr
 
 /-- one row of the state table -/
@@ -92,19 +160,19 @@ structure Row where
   sex : Nat                -- 0 = "m", 1 = "f"
   st : Nat                 -- position of the state in `Config.states`
   exit : Option Int        -- `exit` column: NaN / the event time at which the simulant was untracked
+  age : Nat := 0           -- `age` column (0 when the column is not configured)
   deriving DecidableEq, Repr
 
 structure State where
   rows : List Row
   imap : IndexMap.IMap
   clock : Int
+  res : Results.Ctx := {}                  -- the results context: registrations and `_raw_results`
+  pvals : List (Nat × Rat) := []           -- the last value the pipeline `wmort.p` returned (label, value); a log
   deriving DecidableEq, Repr
 
 /-- the random block as a function of seed string and size -/
 abbrev Blk := String → Nat → Array Nat
-
-/-- the four time-step channels, in the order `SimulationContext.step` emits them -/
-def PHASES : List String := ["time_step__prepare", "time_step", "time_step__cleanup", "collect_metrics"]
 
 /-- `RandomnessManager.setup`: `map_size = max(map_size, 10 * pop_size)` -/
 def blockSize (cfg : Config) : Nat := max cfg.mapSize (10 * cfg.pop)
@@ -156,8 +224,14 @@ def initWeights (cfg : Config) (sexes : List Nat) : Stream.Weights :=
   .twoD (sexes.map fun sx => (cfg.initW.getD sx []).map Stream.Cell.val)
 
 /-- the rows the initializers write for the new labels -/
-def mkRows (clock : Int) (labels keys sexes sts : List Nat) : List Row :=
-  labels.zipIdx.map fun p => ⟨p.1, true, keys.getD p.2 0, clock, sexes.getD p.2 0, sts.getD p.2 0, none⟩
+def mkRows (clock : Int) (labels keys sexes sts : List Nat) (ages : List Nat := []) : List Row :=
+  labels.zipIdx.map fun p => ⟨p.1, true, keys.getD p.2 0, clock, sexes.getD p.2 0, sts.getD p.2 0, none, ages.getD p.2 0⟩
+
+/-- `age = np.floor(draw * 2**bits)` of the draws of a creation (`[]`: no `age` column) -/
+def agesOf (cfg : Config) (kd : List Stream.Draw) : List Nat :=
+  match cfg.age with
+  | none => []
+  | some b => kd.map fun d => keyOf b d.2.2
 
 /-- the simulant creator with the initializers of the kit, in dependency order:
 `WPop.on_initialize_simulants` (positional draw of the CRN-initialising stream → `key`; `entrance` =
@@ -186,7 +260,7 @@ def create (B : Blk) (cfg : Config) (site : String) (k : Nat) (s : State) : Exce
         match Stream.choiceStream (RandomBlock.memoBlk (B ksInit size)) size (posOf im) ksInit 16
             cfg.states.length (initWeights cfg sexes) labels with
         | .error e => .error (strmErr e)
-        | .ok sts => .ok { s with imap := im, rows := s.rows ++ mkRows s.clock labels keys sexes sts }
+        | .ok sts => .ok { s with imap := im, rows := s.rows ++ mkRows s.clock labels keys sexes sts (agesOf cfg kd) }
 
 /-- `WPop.births(phase)`: the schedule entry of the current step number `(clock - start) // step` -/
 def births (B : Blk) (cfg : Config) (ph : Nat) (s : State) : Except Err State :=
@@ -203,19 +277,215 @@ def mortProb (cfg : Config) (r : Row) : Nat := (cfg.mortP.getD r.sex []).getD r.
 /-- is the row addressed by an event with index `evIdx` and visible through a default view -/
 def live (evIdx : List Nat) (r : Row) : Bool := r.tracked && evIdx.contains r.label
 
+/-! ### opt-in: lookup table + value pipeline of the mortality probability -/
+
+def SEXES : List String := ["m", "f"]
+def STATE_NAMES : List String := ["s0", "s1", "s2", "s3"]
+def sexName (x : Nat) : String := SEXES.getD x "?"
+def stateName (x : Nat) : String := STATE_NAMES.getD x "?"
+
+/-- the name of the pipeline -/
+def PIPE : String := "wmort.p"
+
+/-- the common denominator the draws are brought to when they are compared with a pipeline value (every value of a
+valid configuration is a multiple of `1 / PDEN`) -/
+def PDEN : Nat := 2 ^ 32
+
+/-- one data row of the `DataFrame` handed to `build_table`: key cells by name, `[age_start, age_end)`, the value
+numerator -/
+def tableRow (p : PipeSpec) (row : List Int) : Lookup.Row :=
+  let nk := p.keys.length
+  let keys := p.keys.zipIdx.map fun (k, i) => if k = 0 then sexName (row.getD i 0).toNat else stateName (row.getD i 0).toNat
+  if p.edges.isEmpty then { keys := keys, starts := [], ends := [], vals := [row.getD nk 0] }
+  else
+    let b := (row.getD nk 0).toNat
+    { keys := keys, starts := [p.edges.getD b 0], ends := [p.edges.getD (b + 1) 0], vals := [row.getD (nk + 1) 0] }
+
+/-- `builder.lookup.build_table(data, key_columns, parameter_columns, ["p"])` with the manager's defaults
+(`validate`, `extrapolate`): an `InterpolatedTable` when `age` is a parameter column, else a `CategoricalTable` -/
+def mkTable (p : PipeSpec) : Except Lookup.Err Lookup.Table :=
+  Lookup.build p.keys.length (if p.edges.isEmpty then 0 else 1) (p.rows.map (tableRow p)) true none
+
+/-- the row of the state table with label `l` -/
+def rowOf (rows : List Row) (l : Nat) : Option Row := rows.find? fun r => r.label == l
+
+/-- what the table's population view reads for one requested label: its key attributes and its parameter value -/
+def reqOf (p : PipeSpec) (rows : List Row) (l : Nat) : Lookup.Req :=
+  match rowOf rows l with
+  | some r => { label := l, keys := p.keys.map fun k => if k = 0 then sexName r.sex else stateName r.st,
+                xs := if p.edges.isEmpty then [] else [(r.age : Int)] }
+  | none => { label := l, keys := [], xs := [] }
+
+def lookErr : Lookup.Err → Err
+  | .key => .key
+  | _ => .value
+
+/-- `LookupTable.__call__(index)`: the value column as a Series over the index (`Table.call`; the clock is not a
+parameter). A NaN cell cannot occur in an accepted call on a table that `build` accepted (`internal`). -/
+def lookupSeries (p : PipeSpec) (t : Lookup.Table) (rows : List Row) (idx : List Nat) : Except Err Pipeline.Series :=
+  match t.call 0 0 (idx.map (reqOf p rows)) with
+  | .error e => .error (lookErr e)
+  | .ok res =>
+    match res.mapM (fun (e : Nat × Lookup.Cells) => e.2.map fun c => (e.1, ((c.getD 0 0 : Int) : Rat) / (p.den : Nat))) with
+    | some ser => .ok ser
+    | none => .error .internal
+
+/-- `w[sex] / den` of a modifier for the simulant with label `l` (read through the modifier's own view) -/
+def modW (m : ModSpec) (rows : List Row) (l : Nat) : Rat :=
+  ((m.w.getD (((rowOf rows l).map (·.sex)).getD 0) 0 : Int) : Rat) / (m.den : Nat)
+
+/-- one modifier applied to one simulant's value -/
+def modOne (m : ModSpec) (w x : Rat) : Rat :=
+  if m.kind = 0 then x * w else if m.kind = 1 then x + w else w
+
+/-- `WMod.modify(index, value)` (replace combiner): label-aligned arithmetic on the Series -/
+def modFn (m : ModSpec) (rows : List Row) : List Nat → Pipeline.Item → Id Pipeline.Item :=
+  fun _ v => match v with
+    | .se ser => .se (ser.map fun (e : Nat × Rat) => (e.1, modOne m (modW m rows e.1) e.2))
+    | other => other
+
+/-- `WMod.contribute(index)` (list combiner) -/
+def contribFn (m : ModSpec) (rows : List Row) : List Nat → Id Pipeline.Item :=
+  fun idx => .se (idx.map fun l => (l, modW m rows l))
+
+/-- the source when the call is accepted (`lookupSeries` is checked by the caller before the pipeline runs) -/
+def srcItem (p : PipeSpec) (t : Lookup.Table) (rows : List Row) : List Nat → Id Pipeline.Item :=
+  fun idx => match lookupSeries p t rows idx with
+    | .ok ser => .se ser
+    | .error _ => .se []
+
+def modSpecOf (p : PipeSpec) (k : Nat) : ModSpec := p.mods.getD k { kind := 0, den := 1, w := [1, 1] }
+
+/-- the registration calls the components make during setup, in setup (= component) order – replace combiner:
+`WMort` offers the source, `WMod k` (component `4 + k`) appends its modifier -/
+def replaceOps (cfg : Config) (p : PipeSpec) (t : Lookup.Table) (rows : List Row) :
+    List (Pipeline.Op Id (List Nat) Pipeline.Item (List Nat → Pipeline.Item → Id Pipeline.Item)) :=
+  cfg.order.flatMap fun c =>
+    if c = 1 then [.producer "wmort" PIPE { source := srcItem p t rows, combiner := Pipeline.replaceCombiner, post := none }]
+    else if 4 ≤ c ∧ c < 7 then [.modifier "wmod" PIPE (modFn (modSpecOf p (c - 4)) rows)]
+    else []
+
+/-- `union_post_processor` as a post-processor on the list the list combiner built (`[]`: the values do not
+broadcast – not reachable, every entry is a Series over the requested index) -/
+def unionPost : List Pipeline.Item → Id (List Pipeline.Item) :=
+  fun vs => match Pipeline.unionItems vs with
+    | some r => [r]
+    | none => []
+
+/-- … list combiner + `union_post_processor`: the source returns `[table(index)]` -/
+def unionOps (cfg : Config) (p : PipeSpec) (t : Lookup.Table) (rows : List Row) :
+    List (Pipeline.Op Id (List Nat) (List Pipeline.Item) (List Nat → Id Pipeline.Item)) :=
+  cfg.order.flatMap fun c =>
+    if c = 1 then [.producer "wmort" PIPE { source := fun idx => [srcItem p t rows idx],
+                                             combiner := Pipeline.listCombiner, post := some unionPost }]
+    else if 4 ≤ c ∧ c < 7 then [.modifier "wmod" PIPE (contribFn (modSpecOf p (c - 4)) rows)]
+    else []
+
+/-- `self.pipeline(pop.index)`: the lookup (which may raise), then `Pipeline.call` of the pipeline the registration
+calls built -/
+def mortValue (cfg : Config) (p : PipeSpec) (t : Lookup.Table) (rows : List Row) (idx : List Nat) :
+    Except Err Pipeline.Series :=
+  match lookupSeries p t rows idx with
+  | .error e => .error e
+  | .ok _ =>
+    if p.union then
+      match ((({} : Pipeline.Manager Id (List Nat) (List Pipeline.Item) (List Nat → Id Pipeline.Item)).run
+                (unionOps cfg p t rows)).1.getValue PIPE).call idx false with
+      | .ok [Pipeline.Item.se ser] => .ok ser
+      | _ => .error .internal
+    else
+      match ((({} : Pipeline.Manager Id (List Nat) Pipeline.Item (List Nat → Pipeline.Item → Id Pipeline.Item)).run
+                (replaceOps cfg p t rows)).1.getValue PIPE).call idx false with
+      | .ok (Pipeline.Item.se ser) => .ok ser
+      | _ => .error .internal
+
+/-- `draw / 2^53 < x` as `draw * PDEN < probNat x` (exact when `x` is a multiple of `1 / PDEN`) -/
+def probNat (x : Rat) : Nat := (x * ((PDEN * 2 ^ 53 : Nat) : Rat)).floor.toNat
+
+/-- the probabilities `WMort.act` hands to `filter_for_probability` for the tracked simulants `pop` of the event:
+(scale of the draws, thresholds, the log of pipeline values). Without a pipeline: `mortP[sex][state] / 16`. -/
+def mortProbs (cfg : Config) (s : State) (pop : List Row) : Except Err (Nat × List Nat × List (Nat × Rat)) :=
+  match cfg.pipe with
+  | none => .ok (16, pop.map (fun r => mortProb cfg r * 2 ^ 53), s.pvals)
+  | some p =>
+    match mkTable p with
+    | .error _ => .error .internal
+    | .ok t =>
+      match mortValue cfg p t s.rows (pop.map (·.label)) with
+      | .error e => .error e
+      | .ok ser => .ok (PDEN, ser.map (fun e => probNat e.2), ser)
+
 /-- `WMort.act`: the tracked simulants of the event index are filtered with
 `filter_for_probability(index, p)`; those kept are untracked and get `exit = event.time` -/
 def mort (B : Blk) (cfg : Config) (evIdx : List Nat) (evTime : Int) (s : State) : Except Err State :=
   let pop := s.rows.filter (live evIdx)
   if pop.isEmpty then .ok s else
-  let size := blockSize cfg
-  let ks := seedStr cfg "wmort" s.clock "None"
-  match Stream.filterStream (RandomBlock.memoBlk (B ks size)) size (posOf s.imap) ks 16 (pop.map (·.label))
-      (.list (pop.map fun r => mortProb cfg r * 2 ^ 53)) with
-  | .error e => .error (strmErr e)
-  | .ok dead =>
-    .ok { s with rows := s.rows.map fun r =>
-            if live evIdx r && dead.contains r.label then { r with tracked := false, exit := some evTime } else r }
+  match mortProbs cfg s pop with
+  | .error e => .error e
+  | .ok (scale, ps, log) =>
+    let size := blockSize cfg
+    let ks := seedStr cfg "wmort" s.clock "None"
+    match Stream.filterStream (RandomBlock.memoBlk (B ks size)) size (posOf s.imap) ks scale (pop.map (·.label))
+        (.list ps) with
+    | .error e => .error (strmErr e)
+    | .ok dead =>
+      .ok { s with pvals := log, rows := s.rows.map fun r =>
+              if live evIdx r && dead.contains r.label then { r with tracked := false, exit := some evTime } else r }
+
+/-! ### opt-in: the results system -/
+
+/-- what `WObserver` registers (nothing when the component is not in the simulation) -/
+def regStrats (cfg : Config) : List StratSpec := if cfg.order.contains 3 then cfg.strats else []
+def regObs (cfg : Config) : List ObsSpec := if cfg.order.contains 3 then cfg.obs else []
+
+/-- the four time-step channels, in the order `SimulationContext.step` emits them -/
+def PHASES : List String := ["time_step__prepare", "time_step", "time_step__cleanup", "collect_metrics"]
+
+/-- `register_stratification` / `register_binned_stratification` calls, then `register_adding_observation` calls,
+then `ResultsManager.on_post_setup` -/
+def initRes (cfg : Config) : Except Results.Err Results.Ctx := do
+  let strats ← (regStrats cfg).foldlM (fun ss (sp : StratSpec) =>
+      Results.addStratification [] ss sp.name sp.cats (some sp.excl) (if sp.kind = 4 then some sp.edges else none)) []
+  let c ← (regObs cfg).foldlM (fun c (o : ObsSpec) =>
+      Results.registerObservation c o.name (PHASES.getD o.phase "") .adding o.add o.exc)
+      ({ defaults := cfg.obsDefaults, strats := strats } : Results.Ctx)
+  Results.postSetup c
+
+/-- the mapper's output for one simulant -/
+def rawCat (sp : StratSpec) (r : Row) : String :=
+  if sp.kind = 0 then sexName r.sex
+  else if sp.kind = 1 then stateName r.st
+  else if sp.kind = 2 then sexName r.sex ++ "_" ++ stateName r.st
+  else if sp.kind = 3 then (if r.tracked then "yes" else "no")
+  else Results.binLabel sp.edges sp.cats (r.age : Int)
+
+/-- `population.query(pop_filter)` for one simulant -/
+def passesFilter (f : Nat) (r : Row) : Bool :=
+  if f = 0 then true
+  else if f = 1 then r.tracked
+  else if f = 2 then r.st == 1
+  else if f = 3 then r.sex == 1 && r.tracked
+  else !r.tracked
+
+/-- the aggregator's summand -/
+def aggVal (a : Nat) (r : Row) : Int :=
+  if a = 0 then 1 else if a = 1 then r.entrance else (r.age : Int)
+
+/-- `ResultsManager._prepare_population(event)`: every simulant of `event.index`, tracked or not -/
+def rawRows (cfg : Config) (evIdx : List Nat) (rows : List Row) : List Results.RawRow :=
+  rows.map fun r => { inEvent := evIdx.contains r.label, raw := (regStrats cfg).map fun sp => rawCat sp r }
+
+def obsInputs (cfg : Config) (evTime : Int) (rows : List Row) : List Results.ObsInput :=
+  (regObs cfg).map fun o =>
+    { name := o.name, toObserve := decide (((evTime - cfg.start) / cfg.step) % (o.every : Int) = 0),
+      passes := rows.map (passesFilter o.filter), vals := rows.map (aggVal o.agg), payloads := [] }
+
+/-- `ResultsManager.on_<phase>(event)` = `gather_results(phase, event)`; a mapper output outside the categories is a
+`ValueError` -/
+def observe (cfg : Config) (ph : Nat) (evIdx : List Nat) (evTime : Int) (s : State) : Except Err State :=
+  match Results.gatherEvent s.res (PHASES.getD ph "") evTime (rawRows cfg evIdx s.rows) (obsInputs cfg evTime s.rows) with
+  | .ok c => .ok { s with res := c }
+  | .error _ => .error .value
 
 /-- the draws the transition set of state `j` reads: `random.choice(affected.index, …)` – one block, read
 at the position of every affected simulant (table positions; 0 where nothing is read) -/
@@ -260,10 +530,11 @@ def disease (B : Blk) (cfg : Config) (evIdx : List Nat) (s : State) : Except Err
     | .error _ => .error .value
     | .ok tab => .ok { s with rows := List.zipWith (fun r (mr : Machine.Row) => { r with st := mr.st }) s.rows tab }
 
-/-- the registrations on channel `ph`, in registration order (= component setup order): (priority, listener)
-with listener 0 = births, 1 = mortality, 2 = disease -/
+/-- the registrations on channel `ph`, in registration order: (priority, listener) with listener 0 = births,
+1 = mortality, 2 = disease, 3 = the results manager. The MANAGERS are set up before the components: the results
+manager's listener (default priority) is the first registration of every channel; then the components in setup order. -/
 def regs (cfg : Config) (ph : Nat) : List Ev.Reg :=
-  cfg.order.flatMap fun c =>
+  (Gen.defaultPriority, 3) :: cfg.order.flatMap fun c =>
     if c = 0 then [(cfg.birthPrio.getD ph 5, 0)]
     else if c = 1 then (if cfg.mortPhase = ph then [(cfg.mortPrio, 1)] else [])
     else if c = 2 then (if cfg.disPhase = ph then [(cfg.disPrio, 2)] else [])
@@ -274,6 +545,7 @@ def act (B : Blk) (cfg : Config) (ph : Nat) (evIdx : List Nat) (evTime : Int) (w
     Except Err State :=
   if who = 0 then births B cfg ph s
   else if who = 1 then mort B cfg evIdx evTime s
+  else if who = 3 then observe cfg ph evIdx evTime s
   else disease B cfg evIdx s
 
 def runListeners (B : Blk) (cfg : Config) (ph : Nat) (evIdx : List Nat) (evTime : Int) :
@@ -305,7 +577,8 @@ def stepWhole (B : Blk) (cfg : Config) (s : State) : Except Err State :=
 /-- the state `initialize_simulants` starts from: no table, empty index map
 (`IndexMap(key_columns, max(map_size, 10 * pop))`), the clock stepped BACK by one step (fencepost) -/
 def initState (cfg : Config) : State :=
-  { rows := [], imap := { useCrn := !cfg.keyCols.isEmpty, size := blockSize cfg }, clock := cfg.start - cfg.step }
+  { rows := [], imap := { useCrn := !cfg.keyCols.isEmpty, size := blockSize cfg }, clock := cfg.start - cfg.step,
+    res := match initRes cfg with | .ok c => c | .error _ => {} }
 
 /-- `SimulationContext.initialize_simulants`: `step_backward`, create the initial population, `step_forward` -/
 def initPopB (B : Blk) (cfg : Config) : Except Err State :=
@@ -335,11 +608,36 @@ def runWholeB (B : Blk) (cfg : Config) : Nat → State → Except Err State
 def initPop (cfg : Config) : Except Err State := initPopB RandomBlock.blockOf cfg
 def runWhole (cfg : Config) : Nat → State → Except Err State := runWholeB RandomBlock.blockOf cfg
 
+def isPow2Le (n k : Nat) : Bool := (List.range (k + 1)).any fun e => n == 2 ^ e
+
+/-- the opt-in parts: the kit's own requirements (column `age` exists where it is used, dyadic denominators so that
+every value is a multiple of `1 / PDEN`, well-shaped table rows) and what the real code refuses at setup
+(`build_table` validation; duplicate / unknown stratification or observation registrations) -/
+def Config.extValid (cfg : Config) : Bool :=
+  (match cfg.age with | some b => decide (b ≤ 53) | none => true)
+  && (match cfg.pipe with
+      | none => true
+      | some p =>
+        isPow2Le p.den 8 && decide p.keys.Nodup && p.keys.all (fun k => decide (k < 2))
+        && (p.edges.isEmpty || (cfg.age.isSome && decide (2 ≤ p.edges.length)))
+        && p.rows.all (fun row => decide (row.length = p.keys.length + (if p.edges.isEmpty then 1 else 2))
+             && row.all (fun x => decide (0 ≤ x))
+             && (p.keys.zipIdx.all fun (k, i) => decide ((row.getD i 0).toNat < (if k = 0 then 2 else cfg.states.length)))
+             && (p.edges.isEmpty || decide ((row.getD p.keys.length 0).toNat + 1 < p.edges.length)))
+        && decide (p.mods.length = 3)
+        && p.mods.all (fun m => isPow2Le m.den 8 && decide (m.kind < 3) && decide (m.w.length = 2)
+             && (!p.union || m.w.all fun x => decide (0 ≤ x ∧ x ≤ (m.den : Int))))
+        && (match mkTable p with | .ok _ => true | .error _ => false))
+  && cfg.strats.all (fun sp => decide (sp.kind < 5) && (decide (sp.kind ≠ 4) || cfg.age.isSome))
+  && cfg.obs.all (fun o => decide (o.phase < 4) && decide (o.filter < 5) && decide (o.agg < 3) && decide (0 < o.every)
+       && (decide (o.agg ≠ 2) || cfg.age.isSome))
+  && (match initRes cfg with | .ok _ => true | .error _ => false)
+
 /-- what the real code requires of a configuration before a run can start (the driver refuses anything
 else; the harness generates only such configurations) -/
 def Config.valid (cfg : Config) : Bool :=
   decide (0 < cfg.step) && decide (0 < blockSize cfg) && decide (cfg.sexW ≤ 16) && decide (cfg.keyBits ≤ 53)
-  && cfg.keyCols.all (fun c => decide (c < 2)) && cfg.order.all (fun c => decide (c < 3))
+  && cfg.keyCols.all (fun c => decide (c < 2)) && cfg.order.all (fun c => decide (c < 7)) && decide cfg.order.Nodup
   && decide (cfg.birthPrio.length = 4) && cfg.birthPrio.all (fun p => decide (p < 10))
   && decide (cfg.mortPrio < 10) && decide (cfg.disPrio < 10) && decide (cfg.mortPhase < 4) && decide (cfg.disPhase < 4)
   && decide (0 < cfg.states.length) && decide (cfg.initW.length = 2) && decide (cfg.mortP.length = 2)
@@ -347,5 +645,6 @@ def Config.valid (cfg : Config) : Bool :=
   && cfg.mortP.all (fun r => decide (r.length = cfg.states.length))
   && cfg.states.all (fun sp => sp.trans.all fun t => decide (t.1 < cfg.states.length) && decide (t.2.length = 2))
   && cfg.births.all (fun r => decide (r.length = 4))
+  && cfg.extValid
 
 end Viv.Whole
